@@ -1,5 +1,5 @@
 PROP = {"ready": True, 'assumptions': [],
- 'coq': ['theories/Properties/C01.v'],
+ 'coq': ['theories/Properties/C01.v', "theories/Properties/C01_per_send.v"],
  'manifest': {'design_ref': 'DESIGN.md 5 C01',
               'note': 'Transfer from Sem to the bytecode machine is by the differential correspondence (and compile_correct, C08), not by a Coq '
                       'theorem here. Trusted as C08.',
@@ -16,7 +16,13 @@ PROP = {"ready": True, 'assumptions': [],
                       'world literal or an account with an unbounded clause; C01_reject (an error outcome has no result, by typing) and '
                       'C01_reject_exact (a single-source send [A n] without overdraft is refused with insufficient funds iff max 0 balance < n). '
                       'Witnesses of the two repaired defects: C01_refuted_before_fix (save [A *] on a negative balance, 0ffb9a4) and '
-                      'C01_store_floor_refuted_before_fix (save creating an entry for an unloaded asset, 2ef37df).'},
+                      'C01_store_floor_refuted_before_fix (save creating an entry for an unloaded asset, 2ef37df). '
+                      'Strengthening (Properties/C01_per_send.v): C01_floor_per_send - the postings of an accepted run cut into one group per '
+                      'statement (what the statement appended), a non-send statement appends nothing and every posting of a send takes at most '
+                      'max 0 (real running balance when reached, all earlier postings of the script applied, + the overdraft granted by the '
+                      'clauses of THAT send only), for every script / environment / table; C01_per_send_implies_floor - it implies C01_floor; '
+                      'C01_per_send_refutes_writeback_bug - a withdraw_always that does not store the debit back is accepted by the per-script '
+                      'floor and refuted by the per-send one (harness oracle overdraw:per-send on literal scripts).'},
  'suites': [{'bin': 'obs-numscript', 'corpus': 'numscript'}],
  'trusted': ['hand-written models Numscript/{Funding,VM,Syntax,Compiler,Run,Sem}.v of internal/machine/{funding,allotment,portion,monetary}.go, '
              'vm/{machine,run,stack}.go, script/compiler/*.go; tied on every run by correspondence: real compiler + machine vs model on generated '
